@@ -79,7 +79,7 @@ def lean_ty(t) -> str:
 	if k == 'bytes': return 'List UInt8'
 	if k == 'kspec': return 'Py.KSpec'
 	if k == 'str': return 'List Char'
-	if k == 'db': return 'Unit'
+	if k in ('db', 'obj'): return 'Unit'
 	if k == 'char': return 'Char'
 	if k == 'msg': return 'String'
 	if k == 'numinf': return 'Option Nat'
@@ -98,7 +98,7 @@ def default(t) -> str:
 	if k in ('num', 'taxon', 'genome'): return '(0 : Nat)'
 	if k == 'byte': return '(0 : UInt8)'
 	if k == 'kspec': return '(default : Py.KSpec)'
-	if k == 'db': return '()'
+	if k in ('db', 'obj'): return '()'
 	if k == 'char': return "' '"
 	if k == 'msg': return '""'
 	if k == 'rec': return f'(default : Py.{t[1]})'
@@ -200,6 +200,21 @@ FUNCS = [
 	     params=[('genomeset', ('db',)), ('signatures', ('db',))], ret=TUP(LIST(GENOME), LIST(INT)), init=['genomes', 'sig_indices'], strings='msg',
 	     opaque={'signatures.meta.id_attr': ('IDATTR', OPT(BOOL)), 'signatures.ids': ('SIGIDS', LIST(NUM)),
 	             'object_session(genomeset)': ('()', ('db',)), 'genomeset.genomes.count()': ('((GID.length : Nat) : Int)', INT)}),
+	# --- sigs/calc.py: one signature per file, in file order, under any completion order.  Environment: R[f] = the signature of file f
+	#     (none = computing it raises), SIGMA = the order in which the submitted tasks complete.  Files, futures and signatures are naturals.
+	dict(name='calc_file_signatures', file='sigs/calc.py', qual='calc_file_signatures', module='PyCalcFiles',
+	     env=[('R', 'List (Option Nat)'), ('SIGMA', 'List Nat')],
+	     params=[('kspec', ('obj',)), ('files', LIST(NUM)), ('progress', ('obj',)), ('concurrency', OPT(STR)), ('max_workers', OPT(INT)), ('executor', OPT(('obj',)))],
+	     ret=LIST(OPT(NUM)), locals={'sigs': LIST(OPT(NUM)), 'executor_context': OPT(('obj',))},
+	     calls={'calc_file_signature': ('((R.getD {1} none).getD 0)', NUM, [('(R.getD {1} none).isNone', 'Other')]),
+	            'ThreadPoolExecutor': ('()', ('obj',), []), 'ProcessPoolExecutor': ('()', ('obj',), []), 'nullcontext': ('(some ())', OPT(('obj',)), []),
+	            'iter_progress': ('{0}', LIST(NUM), []), 'get_progress': ('()', ('obj',), []),
+	            'as_completed': ('(SIGMA.filter (fun f => (({0}).map (·.1)).contains f))', LIST(NUM), []),
+	            'SignatureList': ('{0}', LIST(OPT(NUM)), [])},
+	     call_kw={'ThreadPoolExecutor': ['max_workers=max_workers'], 'ProcessPoolExecutor': ['max_workers=max_workers']},
+	     methods={('obj', 'submit'): ('s.file', NUM, [], ['calc_file_signature', 'kspec', 'file']),
+	              ('obj', 'increment'): ('()', ('obj',), [], None),
+	              ('num', 'result'): ('((R.getD {self} none).getD 0)', NUM, [('(R.getD {self} none).isNone', 'Other')], [])}),
 	dict(name='check_index', file='util/indexing.py', qual='AdvancedIndexingMixin._check_index', module='PyCheckIndex',
 	     env=[], params=[('self_len', INT), ('i', INT)], ret=INT, self_len='self_len'),
 ]
@@ -236,6 +251,7 @@ class Fn:
 		self.pre = []                       # hoisted calls of translated functions of the statement being translated
 		self.nohoist = 0                    # > 0 inside operands that are evaluated conditionally (and / or / conditional expression / loop test)
 		self.nv = 0
+		self.list_hint = None               # declared type of the variable a list expression is being assigned to
 		self.gen = decl.get('generator')
 		for n, t in (decl.get('locals') or {}).items():
 			self.vars[n] = t
@@ -472,9 +488,16 @@ class Fn:
 			else:
 				raise Untranslatable(f'`in` between {a.ty} and {b.ty}')
 			return E(f'({lean})' if isinstance(op, ast.In) else f'(!({lean}))', BOOL, a.raises + b.raises)
+		if isinstance(op, (ast.Eq, ast.NotEq)):
+			ea, eb = self.expr(l), self.expr(r)
+			if ea.ty[0] == 'opt' and eb.ty == ea.ty[1] and ea.ty[1] in (INT, NUM, STR, BOOL):
+				lean = f'({ea.lean} == some {eb.lean})'
+				return E(lean if isinstance(op, ast.Eq) else f'(!{lean})', BOOL, ea.raises + eb.raises)
 		a, b = self.value(l), self.value(r)
 		if a.ty == NUM and b.ty == NUMINF and isinstance(op, ast.Lt):
 			return E(f'(match {b.lean} with | none => true | some b_ => decide ({a.lean} < b_))', BOOL, a.raises + b.raises)
+		if a.ty == STR and b.ty == STR and isinstance(op, (ast.Eq, ast.NotEq)):
+			return E(f'({a.lean} == {b.lean})' if isinstance(op, ast.Eq) else f'(!({a.lean} == {b.lean}))', BOOL, a.raises + b.raises)
 		if a.ty != b.ty or a.ty not in (INT, NUM, TAXON, GENOME, BOOL, BYTE):
 			raise Untranslatable(f'comparison between {a.ty} and {b.ty}')
 		sym = {ast.Lt: '<', ast.LtE: '≤', ast.Gt: '>', ast.GtE: '≥', ast.Eq: '=', ast.NotEq: '≠'}.get(type(op))
@@ -482,7 +505,10 @@ class Fn:
 		return E(f'(decide ({a.lean} {sym} {b.lean}))', BOOL, a.raises + b.raises)
 
 	def e_BinOp(self, n):
-		a, b = self.value(n.left), self.value(n.right)
+		if isinstance(n.op, ast.Mult) and isinstance(n.left, ast.List) and len(n.left.elts) == 1:
+			a, b = E('[]', LIST(NONE)), self.value(n.right)
+		else:
+			a, b = self.value(n.left), self.value(n.right)
 		if a.ty == INT and b.ty == INT:
 			if isinstance(n.op, ast.Add): return E(f'({a.lean} + {b.lean})', INT, a.raises + b.raises)
 			if isinstance(n.op, ast.Sub): return E(f'({a.lean} - {b.lean})', INT, a.raises + b.raises)
@@ -493,6 +519,12 @@ class Fn:
 				return E(f'(Py.floorDiv {a.lean} {b.lean})', INT, a.raises + b.raises + [(f'(decide ({b.lean} = 0))', 'Other')])
 			if isinstance(n.op, ast.Mod):
 				return E(f'(Py.pyMod {a.lean} {b.lean})', INT, a.raises + b.raises + [(f'(decide ({b.lean} = 0))', 'Other')])
+		if isinstance(n.op, ast.Mult) and isinstance(n.left, ast.List) and len(n.left.elts) == 1 and b.ty == INT:
+			x = self.expr(n.left.elts[0])
+			ty = self.list_hint or (LIST(x.ty) if x.ty != NONE else None)
+			if ty is None: raise Untranslatable('element type of [None] * n is unknown')
+			x = self.coerce(x, ty[1], 'repeated element')
+			return E(f'(List.replicate ({b.lean}).toNat {x.lean})', ty, x.raises + b.raises)
 		if a.ty == b.ty and a.ty[0] in ('list', 'bytes') and isinstance(n.op, ast.Add):
 			return E(f'({a.lean} ++ {b.lean})', a.ty, a.raises + b.raises)
 		raise Untranslatable(f'operator {type(n.op).__name__} on {a.ty}, {b.ty}')
@@ -630,7 +662,7 @@ class Fn:
 				e = E(f'({a.lean}, {b.lean})', TUP(INT, INT), a.raises + b.raises)
 				e.parts = [a, b]
 				return e
-			if name in (self.d.get('calls') or {}) and not kw:
+			if name in (self.d.get('calls') or {}) and sorted(f'{k}={ast.unparse(v)}' for k, v in kw.items()) == sorted((self.d.get('call_kw') or {}).get(name, [])):
 				# a helper modelled by a template: (lean with {0}…, type, [(raise condition with {0}…, exception)])
 				tmpl, ty, rs = self.d['calls'][name]
 				a = [self.expr(x) for x in args]
@@ -641,6 +673,21 @@ class Fn:
 				self.nv += 1
 				self.pre.append((f'v{self.nv}', call, raises))
 				return E(f'v{self.nv}', ty)
+			if name in ('all', 'any') and len(args) == 1 and isinstance(args[0], ast.GeneratorExp) and len(args[0].generators) == 1:
+				g = args[0].generators[0]
+				if g.ifs or not isinstance(g.target, ast.Name): raise Untranslatable(f'{name}() over a filtered / unpacking generator')
+				xs = self.value(g.iter)
+				if xs.ty[0] not in ('list', 'set'): raise Untranslatable(f'{name}() over {xs.ty}')
+				x = g.target.id
+				if x in self.vars: raise Untranslatable(f'generator variable {x} shadows a local')
+				self.vars[x] = xs.ty[1]
+				try:
+					c = self.truth(args[0].elt)
+				finally:
+					del self.vars[x]
+				if c.raises: raise Untranslatable(f'{name}() of a condition that can raise')
+				body = re.sub(rf'\bs\.{x}\b', f'x_{x}', c.lean)
+				return E(f'(({xs.lean}).{name} (fun x_{x} => {body}))', BOOL, xs.raises)
 			if name == 'float' and len(args) == 1 and isinstance(args[0], ast.Constant) and args[0].value == 'inf':
 				return E('none', NUMINF)
 			if name == 'zip_strict' and len(args) == 2 and not kw:
@@ -739,6 +786,15 @@ class Fn:
 		if isinstance(f, ast.Attribute):
 			o = self.value(f.value, 'AttributeError')
 			m = f.attr
+			mt = (self.d.get('methods') or {}).get((o.ty[0], m))
+			if mt is not None:
+				# a method of a modelled object: (lean template with {self}, {0}…; type; [(raise condition, exception)]; expected argument texts or None)
+				tmpl, ty, rs, want = mt
+				if want is not None and [ast.unparse(x) for x in args] + [f'{k}={ast.unparse(v)}' for k, v in kw.items()] != want:
+					raise Untranslatable(f'.{m}({", ".join(ast.unparse(x) for x in args)}) — expected .{m}({", ".join(want)})')
+				a = [self.expr(x) for x in args] if want is None else []
+				fmt = lambda t: t.format(*[x.lean for x in a], self=o.lean)
+				return E(fmt(tmpl), ty, o.raises + guard_all(a) + [(fmt(c), k) for c, k in rs])
 			if o.ty == TAXON and m == 'ancestors':
 				inc = kw.get('incself') or (args[0] if args else None)
 				if inc is None: inc = ast.Constant(False)
@@ -774,6 +830,9 @@ class Fn:
 		return ''.join(f'{ind}let _ ← Py.guard {c} .{k}\n' for c, k in raises)
 
 	def assign(self, name, e: E, ind) -> str:
+		if e.ty == ('dict', NONE, NONE) and name not in self.vars and name not in self.empty_types:
+			self.vars[name] = ('dict', NONE, NONE); self.order.append(name)      # typed by its first item assignment (pass 1)
+			return ''
 		if e.ty == ('dict', NONE, NONE) or e.ty == LIST(NONE) or e.ty == SET(NONE):
 			# empty container: the element type comes from the declared return type / later use
 			want = self.empty_types.get(name) or self.vars.get(name)
@@ -811,6 +870,13 @@ class Fn:
 		if isinstance(v, ast.Call) and isinstance(v.func, ast.Name) and v.func.id in self.known:
 			call, ty, raises = self.call_known(v)      # a translated function called for its checks only
 			return self.guards(raises, ind) + f'{ind}let _ ← Py.call {call}\n'
+		if isinstance(v, ast.Call) and isinstance(v.func, ast.Attribute) and not (v.func.attr == 'append'):
+			try:
+				e = self.expr(v)
+			except Untranslatable:
+				e = None
+			if e is not None and e.ty in (('obj',), ('db',)):
+				return self.guards(e.raises, ind)
 		if isinstance(v, ast.Yield):
 			if not self.gen: raise Untranslatable('yield in a function not declared a generator')
 			e = self.coerce(self.expr(v.value), self.gen, 'yielded value')
@@ -865,6 +931,22 @@ class Fn:
 			e = self.coerce(self.expr(v), fields[tgt.attr], f'assignment to {r}.{tgt.attr}')
 			self.narrow = {k for k in self.narrow if f"id='{r}'" not in k}
 			return self.guards(e.raises, ind) + f'{ind}let s : St := {{ s with {r} := {{ s.{r} with {mangle(tgt.attr)} := {e.lean} }} }}\n'
+		if isinstance(tgt, ast.Subscript) and isinstance(tgt.value, ast.Name) and tgt.value.id in self.vars and not isinstance(tgt.slice, ast.Slice):
+			name = tgt.value.id
+			ty = self.vars[name]
+			if ty[0] == 'dict':
+				if ty[1] == NONE:     # d = dict() of still unknown type: taken from the first item assignment
+					kx, vx = self.value(tgt.slice), self.expr(v)
+					ty = DICT(kx.ty, vx.ty); self.vars[name] = ty
+				k = self.coerce(self.value(tgt.slice), ty[1], 'dict key')
+				e = self.coerce(self.expr(v), ty[2], 'dict value')
+				return self.guards(k.raises + e.raises, ind) + f'{ind}let s : St := {{ s with {name} := Py.dictSet s.{name} {k.lean} {e.lean} }}\n'
+			if ty[0] == 'list':
+				i = self.value(tgt.slice)
+				if i.ty != INT: raise Untranslatable('list index that is not an int')
+				e = self.coerce(self.expr(v), ty[1], 'list element')
+				return (self.guards(i.raises + e.raises + [(f'(Py.getItem? s.{name} {i.lean}).isNone', 'IndexError')], ind)
+				        + f'{ind}let s : St := {{ s with {name} := Py.listSet s.{name} {i.lean} {e.lean} }}\n')
 		def selfattr(t):
 			return isinstance(t, ast.Attribute) and isinstance(t.value, ast.Name) and t.value.id == 'self' and self.d.get('init')
 		if selfattr(tgt):
@@ -895,7 +977,12 @@ class Fn:
 			e = self.coerce(E('v', ty), self.vars[name], f'assignment to {name}')
 			self.narrow = {k for k in self.narrow if f"id='{name}'" not in k}
 			return self.guards(raises, ind) + f'{ind}let v ← Py.call {call}\n{ind}let s : St := {{ s with {name} := {e.lean} }}\n'
-		return self.assign(name, self.expr(v), ind)
+		self.list_hint = self.vars.get(name) if self.vars.get(name, ('',))[0] == 'list' else None
+		try:
+			e = self.expr(v)
+		finally:
+			self.list_hint = None
+		return self.assign(name, e, ind)
 
 	def call_known(self, v):
 		d = self.known[v.func.id]
@@ -1040,6 +1127,17 @@ class Fn:
 			if isinstance(x, ast.Try) and (self.has_break(x.body) or any(self.has_break(h.body) for h in x.handlers)): return True
 		return False
 
+	def s_With(self, st, ind):
+		out = ''
+		for it in st.items:
+			e = self.expr(it.context_expr)
+			if it.optional_vars is not None:
+				if not isinstance(it.optional_vars, ast.Name): raise Untranslatable('with … as <pattern>')
+				out += self.assign(it.optional_vars.id, e, ind)
+			else:
+				out += self.guards(e.raises, ind)
+		return out + ''.join(self.stmt(x, ind) for x in st.body)
+
 	def s_Try(self, st, ind):
 		if st.finalbody or st.orelse or len(st.handlers) != 1 or len(st.body) != 1:
 			raise Untranslatable(f'try statement at line {st.lineno} (only `try: <one statement> except E: …`)')
@@ -1105,6 +1203,11 @@ class Fn:
 					hs = [run(h.body, bound) for h in st.handlers]
 					for h in hs: b1 = meet(b1, h)
 					bound = b1
+				elif isinstance(st, ast.With):
+					for it in st.items:
+						reads(it.context_expr, bound)
+						if it.optional_vars is not None: bound = bound | targets(it.optional_vars)
+					bound = run(st.body, bound)
 				elif isinstance(st, (ast.Return, ast.Raise, ast.Break, ast.Continue)):
 					if isinstance(st, ast.Return) and st.value is not None: reads(st.value, bound)
 					return TOP
